@@ -424,3 +424,92 @@ def check_rk_call_caught_fault(reg, src, prop):
         ex.prove(s, ctx, z3.And(dT == h, new_dt == h), "post", "fixed-step-exact-after-caught-fault#path%d" % k)
     reg.ground("%s/%s/caught-fault-paths-explored" % (prop, ctx.tag), "lemma", "__call__", n >= 1, detail="%d paths" % n)
     return fi
+
+
+def check_rk_call_unbounded(reg, src, prop, implicit, adaptive, keep=None):
+    """RungeKuttaIntegrator.__call__ with the retry loop `for _ in range(num_step_retries)` *cut by an invariant* instead of unrolled: the
+    clauses hold for every retry budget (the shipped default is 64) and every number of retries actually made.
+      invariant at the head of a retry: the step is to be redone; the proposal `timestep` has the sign of the requested step; the step
+        executed last (self.dTime) has that sign and is not longer than the requested one; if the controller rejected it, the proposal
+        is strictly shorter than it;
+      per retry: the step issued has the sign of the request, is not longer than it, and is strictly shorter than the rejected one;
+      exits: `break` only with an accepted (and, implicit, converged) step; exhaustion raises FailedToMeetTolerances."""
+    from pyvc.executor import Contract
+    ex = Executor(src, reg, prop=prop)
+    fi = src.func(FT, "RungeKuttaIntegrator.__call__")
+
+    def step_stub(ex_, st_, ctx, args, kwargs):
+        selfref, ts = args[0], args[5]
+        flag = z3.Bool(fresh_name("newton_ok"))
+        st_.obj(st_.obj(selfref).fields["solver_dict"]).items["newton_iteration_success"] = flag
+        st_.ghost["last_newton"] = flag
+        st_.env["g_issued"] = ts
+        st_.env["g_newton"] = flag
+        st_.obj(selfref).fields["dTime"] = ts
+        ds = z3.Real(fresh_name("dState"))
+        st_.obj(selfref).fields["dState"] = ds
+        return (ts, (ts, ds))
+
+    def upd_stub(ex_, st_, ctx, args, kwargs):
+        # contract of update_timestep / implicit_aware_update_timestep (proved by check_update_timestep / check_implicit_aware)
+        selfref = args[0]
+        h = st_.obj(st_.obj(selfref).fields["solver_dict"]).items["timestep"]
+        corr, tau = z3.Real(fresh_name("corr")), z3.Real(fresh_name("tau"))
+        st_.assume(z3.And(corr >= z3.Q(2146, 10000), corr < z3.Q(2571, 1000), tau > z3.Q(84, 100), tau < z3.Q(116, 100)))
+        redo = corr < z3.Q(81, 100)
+        st_.ghost["last_redo"] = redo
+        st_.env["g_rejected"] = redo
+        return (corr * tau * h, redo)
+    ex.call_hooks["RungeKuttaIntegrator.step"] = step_stub
+    ex.call_hooks["RungeKuttaIntegrator.update_timestep"] = upd_stub
+    ex.call_hooks["RungeKuttaIntegrator.get_error_estimate"] = lambda ex_, st_, ctx, args, kwargs: z3.Real(fresh_name("err"))
+    st = State()
+    items = dict(redo_count=0)
+    for k in STALE_MEMORY:
+        items[k] = Opaque("stale_" + k)
+    sd = st.new_obj("dict", "dict", items=items)
+    keepset = frozenset(keep if keep is not None else ["redo_count", "safety_factor", "order", "atol", "rtol"])
+    fields = dict(solver_dict=sd, solver_dict_keep_keys=keepset, final_rhs=None, _explicit=not implicit, _fsal=False, _adaptive=adaptive, _adaptivity_enabled=False,
+                  stage_values=Opaque("sv"), atol=Opaque("atol"), rtol=Opaque("rtol"), dTime=None, dState=None, _requires_high_precision=False,
+                  initial_state=None, initial_time=None, initial_rhs=None)
+    fields["_RungeKuttaIntegrator__rhs_jac"] = Opaque("jac")
+    selfobj = st.new_obj("RungeKuttaIntegrator", fields=fields)
+    same = "((current_timestep > 0 and %s > 0) or (current_timestep < 0 and %s < 0))"
+    loops = {"num_step_retries": {
+        "cut": True, "havoc": ["g_issued", "g_rejected", "g_newton"],
+        "invariant": ["redo_step == True", same % ("timestep", "timestep"),
+                      # step() and update_timestep() do not touch the flags __call__ dispatches on (frame of step: proved in props/C02.check_rk_step)
+                      "self._explicit == %s and self._adaptive == %s and self._adaptivity_enabled == False" % (not implicit, adaptive),
+                      (same % ("self.dTime", "self.dTime")) + " and abs(self.dTime) <= abs(current_timestep)",
+                      "implies(g_rejected, abs(timestep) < abs(self.dTime))"],
+        "let_body": {"g_rejected_head": "g_rejected", "dTime_head": "self.dTime"},
+        "ensures_iteration": [(same % ("g_issued", "g_issued")) + " and abs(g_issued) <= abs(current_timestep)",
+                              "implies(g_rejected_head, abs(g_issued) < abs(dTime_head))",
+                              # the loop is left by `break` only with an accepted step (and a converged stage solve)
+                              "implies(not redo_step, not g_rejected" + (" and g_newton" if implicit else "") + ")"]}}
+    c = Contract(FT, "RungeKuttaIntegrator.__call__", sorts={}, requires=[], ensures=[], loops=loops)
+    label = "implicit" if implicit and not adaptive else ("implicit-adaptive" if implicit else ("adaptive" if adaptive else "explicit-fixed"))
+    ctx = Ctx(fi, c, fi.cls, tag="RungeKuttaIntegrator.__call__[%s,any-number-of-retries]" % label)
+    ctx.entry = st.fork()
+    h = z3.Real("h0")
+    st.assume(h != 0)
+    consts = st.new_obj("dict", "dict", items={})
+    paths = ex.call_function(fi, [selfobj, UFunc("rhs", "real"), z3.Real("t"), z3.Real("y"), consts, h], {}, st, ctx, contract=c)
+    n_ret = n_raise = 0
+    for k, (s, v) in enumerate(paths):
+        if isinstance(v, Raised):
+            n_raise += 1
+            reg.ground("%s/%s/raises-only-FailedToMeetTolerances#path%d" % (prop, ctx.tag, k), "post-exc", "__call__", v.exc.cls == "FailedToMeetTolerances", backend="symbolic-exec",
+                       detail="exception class %s" % v.exc.cls)
+            continue
+        n_ret += 1
+        new_dt, (dT, dS) = v
+        ex.prove(s, ctx, z3.And(z3.Implies(h > 0, z3.And(dT > 0, new_dt > 0)), z3.Implies(h < 0, z3.And(dT < 0, new_dt < 0)), zabs(dT) <= zabs(h)), "post", "I1-I2-sign-and-bound#path%d" % k)
+        if adaptive or implicit:
+            ex.prove(s, ctx, z3.Not(s.ghost["last_redo"]) if "last_redo" in s.ghost else False, "post", "returned-step-was-accepted-by-controller#path%d" % k)
+        if implicit:
+            ex.prove(s, ctx, s.ghost.get("last_newton", False), "post", "unconverged-never-returned#path%d" % k)
+        if not implicit and not adaptive:
+            ex.prove(s, ctx, z3.And(dT == h, new_dt == h), "post", "fixed-step-exact#path%d" % k)
+    reg.ground("%s/%s/paths-explored" % (prop, ctx.tag), "lemma", "__call__", n_ret >= 1 and (n_raise >= 1 or not (adaptive or implicit)), detail="%d returning, %d raising paths" % (n_ret, n_raise))
+    return fi
